@@ -55,7 +55,7 @@ def run(run):
                 cases.append((s, n, o))
     for n in range(nmax + 1, 30):
         for o in range(6):
-            for s in positions(rng, n, 12 if quick else 150):
+            for s in positions(rng, n, run.n(12, 150)):
                 cases.append((s, n, o))
     state = {"min_margin": 10.0}
 
